@@ -1,6 +1,6 @@
 INIT Init
 NEXT Next
-CONSTANTS Lens = {1, 2, 9, 15, 16, 17, 18, 19, 20, 21, 22}
+CONSTANTS Lens = {1, 2, 17, 18, 19, 20, 22}
 Tier = "quick"
 CONSTRAINT Emit
 CHECK_DEADLOCK FALSE
